@@ -132,6 +132,10 @@ class TimedSys:
                 continue
             if adv is not None and adv != "next-2r" or (adv is None and not idle):
                 evs.append((adv, "pre", None, "settle"))
+            if can_dev and adv == "next" and due and getattr(self, "one_after_advance", False):
+                # opt-in: move to the next timer and run exactly one iteration, so that the following event lands
+                # between the callbacks that timer set off
+                evs.append((adv, "pre", None, "one"))
             for act in acts:
                 evs.append((adv, "pre", act, "settle"))
                 if due:
